@@ -28,7 +28,10 @@ MANIFEST = dict(
           "xg**2, 1/xa), so that the product of the operand units cancels a dimension and leaves a pure number != 1 that differs between the "
           "two unit systems; single-operand calls re-run on a density- / wavenumber-like unit (concrete dyadic length scales, every element "
           "and the other scales symbolic). HISTORY (family rereg): the same call is made first on another dataset - another registry in "
-          "which the same unit names have other scales - before the two compared runs. Bounded: template catalogue, shapes <= (2,3)."),
+          "which the same unit names have other scales - before the two compared runs. TYPED SECONDARY OPERAND (family mixu-typed, ground per dtype): every "
+          "Tier-1 mixed-unit call with the operand in the other unit being a real int8/int16/int32/int64/uint8/uint16/float32/float64 buffer (values whose "
+          "conversion leaves the narrow type) and a whole / non-whole numeral factor, next to a symbolic primary operand, against the same call with that "
+          "operand expressed in the data's unit by exact rational arithmetic. Bounded: template catalogue, shapes <= (2,3)."),
     design="DESIGN.md section 4 C07",
     technique="metamorphic symbolic execution of the real Python code over z3 real terms (unit re-expression); SMT (QF_NRA/UF) obligations per path; counterexample replay")
 EXPLANATION = (
@@ -74,7 +77,18 @@ EXPLANATION = (
     "History (family `rereg`): before the two compared runs the same template is executed in both unit systems on ANOTHER registry in which "
     "the same unit names have other scales (numerals; the scales of the case proper are symbols), with no library reset in between: a memo "
     "keyed by the spelling of a unit (or by anything that does not determine its scale and registry) hands the case a unit of the other "
-    "dataset. Same obligations as the base case, decided for all values.")
+    "dataset. Same obligations as the base case, decided for all values. "
+    "Typed secondary operand (family `mixu-typed/<dtype>/<factor>/<template>`; GROUND, enumerated per dtype x factor x buffer content, as the typed "
+    "families of C06/C09/C18/C19): an object-dtype payload cannot see a branch on dtype.kind or arithmetic done inside a narrow dtype, so every Tier-1 "
+    "template of the mixed-unit family is run with its X2 operands (padding / prepend / to_end values, members of a concatenation, bounds, fill and "
+    "insert values ...) as a real buffer of dtype int8, int16, int32, int64, uint8, uint16, float32, float64 in unit xg, and again with the same physical "
+    "values given in the data's unit xa as a float64 buffer computed by the harness with exact rational arithmetic (value * scale(xg) / scale(xa); not "
+    "by .to()). Scales are numerals (xa = 1/4; xg = 250, 2, 1/400, 1/512: factors 1000, 8, 1/100, 1/128), because the axis is a branch on the VALUE of "
+    "the factor (whole / not whole) read as a Python number; the elements of the primary operand and of out= buffers stay solver variables (NumPy "
+    "accepts a typed operand next to an object-dtype one in all 40 templates). Buffer values: value x factor leaves the integer type (40 km as int16, "
+    "3e6 km as int32, 9.2e15 km as int64) resp. float16 (70.5 km as float32), plus small controls, all exactly representable in the same-width float "
+    "the unchanged code converts through. Obligations: the call raises, or the results / arguments after the call have the same structure, dimension "
+    "and SI magnitudes (1e-6 band; finite where the reference is finite; bare results equal for all values of the symbolic operand).")
 BOUNDS = {
     "quick": "the `quick` subset of the template catalogue, shapes (), (2,), (3,), (2,2), (2,3); groups length/time/temperature; plus the "
              "mixed-unit family (both tiers): 48 merging/validating calls (concatenate, stack family, block, append, where, select, choose, "
@@ -91,7 +105,9 @@ BOUNDS = {
              "without rank/ and round/); family uform: every quick template with operands in L and a second group x (inv-other, density, "
              "square-other) [Tier-2: first call form per function], and form density1 on the first call form of every function with a unyt "
              "handler whose only unit group is L; family rereg: the first call form of every function / method / operator of the quick "
-             "catalogue. Neither family re-runs templates whose base case shows a recorded (known) defect, nor the sweeps",
+             "catalogue. Neither family re-runs templates whose base case shows a recorded (known) defect, nor the sweeps; family mixu-typed (ground): the 40 "
+             "Tier-1 mixed-unit templates x 16 (dtype, factor) pairs - factor 1000 x all 8 dtypes, 1/100 x int64/float64, 1/128 x int8/int16/int32/float32, "
+             "8 x int8/uint16 - up to 3 buffer values per operand",
     "thorough": "the full template catalogue: positional / keyword / out= variants, equal and ragged extents, two different units of one "
                 "dimension inside one call (coherent factor), plus a shape x axis sweep of 25 single-operand functions over (), (1,), (0,), (2,3), "
                 "(3,2), (1,2), (2,2,2); sorting-type functions with axis=None only up to 3 elements; family `dimless` over the full "
@@ -100,7 +116,8 @@ BOUNDS = {
                 "(alias without sweep/, round/, *mixdim), arg-npscalar over the full catalogue without sweep/, rank/, round/; uform: all five "
                 "two-operand forms over every template with two unit groups, density1 over every single-group template, inv1 over the first "
                 "call form per handled function; rereg: every call form of the functions with a unyt handler, first call form of the others "
-                "(both without sweep/, rank/, round/ and without templates of recorded defects)",
+                "(both without sweep/, rank/, round/ and without templates of recorded defects); mixu-typed: 8 dtypes x 4 factors (1/100 only for 64-bit "
+                "values, where the unchanged code computes in float64)",
 }
 OUTSIDE = ("IEEE rounding (bit-for-bit covariance under power-of-two rescaling is not claimed: A1); integer/complex payloads; offset units "
            "(C08); bare numbers standing for dimensional arguments are rescaled with their group (they denote a quantity in the unit of "
@@ -122,7 +139,11 @@ OUTSIDE = ("IEEE rounding (bit-for-bit covariance under power-of-two rescaling i
            "single-operand expression forms, not combined with the aliasing / spelling / dimensionless axes; history: one earlier call of "
            "the SAME template on one other registry (other functions as the earlier call only through the sampled warm variants of "
            "symx.warm); a registry edited in place between the calls (modify/add/remove) belongs to C12 and is not walked here; templates "
-           "whose base case shows a recorded defect are not re-run under uform / rereg")
+           "whose base case shows a recorded defect are not re-run under uform / rereg; typed secondary operands: numeral scales only, Tier-1 templates only "
+           "(not the interp / histogram kernels), one fixed set of buffer values per dtype, uint16 without an overflowing value (float16 ends first), "
+           "8-bit integers are converted through float16 too (int8 100 km next to data in m is inf m on the unchanged tree), values whose product is NOT representable in that float "
+           "are not walked: unyt_array.in_units converts int16 through float16 and int32 through float32, so np.pad(data_m, 1, constant_values=int16 33 km) "
+           "pads with 32992 m on the unchanged tree (a precision matter of in_units, conversion properties C17/C18), complex and bool buffers")
 CONFORM = {"quick": 40, "thorough": 120}
 
 
@@ -634,6 +655,138 @@ def make_mixed_case(t, kind):
                 budget_s=600.0, oblig_timeout_ms=60000, conform=t.conform, group=t.key)
 
 
+# ============================================================================================ typed secondary operand (ground, per dtype)
+# The mixed-unit family runs on object-dtype payloads of z3 reals: a branch on dtype.kind, or arithmetic carried out IN a narrow dtype
+# (int16 40 km next to data in m: 40*1000 does not fit), is invisible to it. Twin family `mixu-typed/<dtype>/<factor>/<template>`: every
+# Tier-1 template of MIXED is run with the secondary operands (group X2) being REAL typed buffers in another unit of the same dimension,
+# next to primary operands (group X) that keep their symbolic object-dtype payload. Compared against the same call with the secondary
+# operands given in the data's own unit, built by the harness with exact rational arithmetic on the registry's scales (float64 buffer).
+# The scales are numerals here (U1 = 1/4; U2 = 250, 2, 1/400, 1/512): what the axis is about is a branch on the VALUE of the conversion
+# factor (whole or not) and on the dtype, and both are read by the real code as Python values. The enumeration over dtype x factor x
+# buffer content is GROUND (labelled so in EXPLANATION); the primary operand's elements stay solver variables.
+TYPED_DTYPES = ("int8", "int16", "int32", "int64", "uint8", "uint16", "float32", "float64")
+TYPED_U1_SCALE = 0.25
+TYPED_FACTORS = {"whole-1000": 250.0, "whole-8": 2.0, "frac-100": 0.0025, "frac-128": 0.25 / 128}   # scale of U2; factor = scale / (1/4)
+TYPED_QUICK = [(d, "whole-1000") for d in TYPED_DTYPES] + [(d, "frac-100") for d in ("int64", "float64")] + \
+              [(d, "frac-128") for d in ("int8", "int16", "int32", "float32")] + [(d, "whole-8") for d in ("int8", "uint16")]
+# a non-dyadic factor (1/100) only where the unchanged code computes in float64 (64-bit values): elsewhere value/100 is rounded in a narrow
+# float and the boolean / set-type calls would be judged on that rounding
+TYPED_COMBOS = [(d, f) for d in TYPED_DTYPES for f in TYPED_FACTORS if f != "frac-100" or np.dtype(d).itemsize == 8]
+
+
+# buffer values. The unchanged library converts an integer quantity through the float type of the SAME WIDTH (int16 -> float16, int32 ->
+# float32, int64 -> float64: unyt_array.in_units; 8-bit integers go through float16 as well). Values are
+# chosen so that value x factor is exactly representable there (40 km -> 40000 m is a float16 number, 33 km -> 33000 m is not): the check
+# then has no rounding boundary for the boolean / set-type calls to sit on. Products that are NOT representable in the same-width float
+# (int16 33 km next to data in m gives 32992 m on the unchanged tree) are a recorded observation about in_units, see OUTSIDE
+_TV_WHOLE1000 = {1: [40, 3, 48, 56, 2], 2: [40, 3, 48, 56, 2], 4: [3000000, 3, 4000000, 2500000, 2],
+                 8: [9223372036854776, 3, 9223372036854778, 4611686018427388, 2]}       # x 1000 leaves the signed type (except uint16: float16 ends first)
+_TV_FLOAT = [70.5, 3.0, 1234.5, 0.75, 9.5]                                               # x 1000 leaves float16 (a narrower intermediate shows)
+_TV_SMALL = [96, 7, 120, 1, 100]                                                         # <= 7 bits: exact after / 128 in every float type
+_TV_WIDE = [2**52 + 1, 7, 2**52 - 1, 1, 100]                                             # 64-bit only: one rounding in float64 arithmetic
+
+
+def typed_values(dtype, fkind, n):
+    """-> n distinct positive buffer values of `dtype`, exact factor scale(U2)/scale(U1) as a Fraction"""
+    from fractions import Fraction
+    dt = np.dtype(dtype)
+    F = Fraction(TYPED_FACTORS[fkind]) / Fraction(TYPED_U1_SCALE)
+    if dt.kind == "f":
+        vals = _TV_FLOAT
+    elif fkind == "whole-1000":
+        vals = _TV_WHOLE1000[dt.itemsize]
+    elif fkind == "whole-8":
+        vals = [16, 3, 17, 100, 2] if dt.itemsize == 1 else _TV_WHOLE1000[dt.itemsize]
+    elif fkind == "frac-100" and dt.itemsize == 8:
+        vals = _TV_WIDE
+    else:
+        vals = _TV_SMALL
+    assert n <= len(vals)
+    return list(vals[:n]), F
+
+
+class TypedMixEnv(MixEnv):
+    """operands of group X2: run M = a real buffer of `dtype` in unit U2; run C = the same physical values in unit U1, computed by the
+    harness as exact rationals value * scale(U2) / scale(U1) (float64 buffer). Every other operand as in the mixed family"""
+
+    def __init__(self, *a, dtype=None, fkind=None, **k):
+        super().__init__(*a, **k)
+        self.dtype, self.fkind = np.dtype(dtype), fkind
+
+    def q(self, name, group="L", shape=(2,), pos=False, nonzero=False, increasing=False, lo=None, hi=None, pattern=None):
+        if group != "X2" or pattern is not None:
+            return super().q(name, group, shape, pos=pos, nonzero=nonzero, increasing=increasing, lo=lo, hi=hi, pattern=pattern)
+        n = int(np.prod(shape, dtype=int))
+        vals, F = typed_values(self.dtype, self.fkind, n)
+        if increasing:
+            vals = sorted(vals)
+        U1, U2 = self.mix
+        if self.run == "M":
+            x = np.array(vals, dtype=self.dtype).reshape(shape)
+            assert [v.item() for v in x.ravel()] == vals, "buffer value not representable in the dtype"
+            name_u = U2.name
+        else:
+            from fractions import Fraction
+            x = np.array([float(Fraction(v) * F) for v in vals], dtype=np.float64).reshape(shape)
+            name_u = U1.name
+        ua, uq = self.ctx.mods["unyt"].unyt_array, self.ctx.mods["unyt"].unyt_quantity
+        v = uq(x[()], name_u, registry=self.reg) if shape == () else ua(x, name_u, registry=self.reg)
+        self.made[name], self.group[name] = v, group
+        return v
+
+
+def make_typed_mixed_case(t, dtype, fkind):
+    def h(ctx):
+        from symx.kernels import KernelModel
+        D = ctx.mods["unyt"].dimensions
+        reg = ctx.registry([])
+        U1, U2 = U("xa", TYPED_U1_SCALE, 0.0), U("xg", TYPED_FACTORS[fkind], 0.0)
+        ctx.add_row(reg, U1.name, D.length, U1.s)
+        ctx.add_row(reg, U2.name, D.length, U2.s)
+        for g in t.groups:
+            if g in ("T", "M"):
+                ctx.add_row(reg, UNITS["A"][g], getattr(D, GROUP_DIMS[g]), ctx.real("s_" + g, pos=True))
+        res = []
+        for run in ("M", "C"):
+            E = TypedMixEnv(ctx, "q", reg, run, mix=(U1, U2), dtype=dtype, fkind=fkind)
+            with warnings.catch_warnings(), np.errstate(all="ignore"):
+                warnings.simplefilter("ignore")
+                r = call(t.fn, np, E)
+            del KernelModel.calls[:]
+            if r[0] == "raise" and ctx.symbolic and engine_refusal(r[1]):
+                raise core.Unsupported(f"NumPy refused the symbolic payload next to the typed buffer: {type(r[1]).__name__}: {r[1]}"[:300])
+            res.append((E, r))
+        (EM, rm), (EC, rc) = res
+        if rm[0] == "raise":
+            ctx.require("typed operand in another unit: the call raises (allowed)", True)
+            ctx.observe("outcome", "raise:" + type(rm[1]).__name__)
+            return
+        if rc[0] == "raise":
+            ctx.require("typed operand in another unit: returns although the same call in the data's unit raises", False, common=str(rc[1])[:200])
+            return
+        a1 = [x for n, v in EM.made.items() for x in flatten(v, n)]
+        a2 = [x for n, v in EC.made.items() for x in flatten(v, n)]
+        # an overflow inside a narrow float type gives inf, which sits inside every relative band: finiteness is compared first
+        import math
+        for what, fm, fc in (("result", flatten(rm[1]), flatten(rc[1])), ("argument after the call", a1, a2)):
+            for (p, k, x), (_, k2, y) in zip(fm, fc):
+                if k in "uan" and k2 in "uan" and leaf_shape(x) == leaf_shape(y):
+                    bad = [(a, b) for a, b in zip(leaf_elements(x), leaf_elements(y)) if isinstance(a, (int, float)) and isinstance(b, (int, float))
+                           and math.isfinite(a) != math.isfinite(b)]
+                    ctx.require(f"{what} {p}: finite where the call in the data's unit is finite", not bad, pairs=str(bad)[:200])
+        compare_mixed(ctx, flatten(rm[1]), flatten(rc[1]), "result", 0)
+        compare_mixed(ctx, a1, a2, "argument after the call", 0)
+
+    return Case(f"C07/mixu-typed/{dtype}/{fkind}/{t.name}", h, bounds=f"ground: secondary operand = {dtype} buffer, factor {fkind}, numeral scales; "
+                "symbolic: every element of the primary operand and of out= buffers", weight=1, max_paths=t.max_paths, budget_s=600.0,
+                conform=0, group=t.key)
+
+
+def typed_mixed_cases(tier):
+    combos = TYPED_QUICK if tier == "quick" else TYPED_COMBOS
+    return [make_typed_mixed_case(t, d, f) for d, f in combos for t in MIXED if t.tier == 1]
+
+
 def _x2(E, s1=(2,), s2=(2,)):
     return [E.q("a", "X", s1), E.q("b", "X2", s2)]
 
@@ -974,6 +1127,8 @@ def cases(tier, mods):
     out += [make_mixed_case(t, kind) for kind in ("scale",) + DL_KINDS for t in CMP_FORMS + CMP_TOL_FORMS]
     cmp_atol0 = [t for t in MIXED if t.key in ("numpy.isclose", "numpy.allclose")] + CMP_FORMS
     out += [make_mixed_case(t, kind) for kind in DL_BARE_KINDS for t in cmp_atol0]
+    # ---- mixed units with a real typed buffer as secondary operand (ground per dtype x factor; quick and thorough)
+    out += typed_mixed_cases(tier)
     # ---- identity of operands, spelling of option arguments (quick and thorough)
     for fam, ts in family_templates(tier, mods).items():
         out += [make_case(t) for t in ts]
@@ -994,6 +1149,7 @@ def coverage_extra(results, tier):
     out["identity_and_spelling_axes"] = {f: sum(1 for i in ids if i.startswith(f"C07/{f}/")) for f in ("alias", "flag-npbool", "flag-int", "arg-npscalar")}
     out["compound_operand_units"] = {f: sum(1 for i in ids if i.startswith(f"C07/uform/{f}/")) for f in UFORMS}
     out["history_same_call_on_another_registry"] = sum(1 for i in ids if i.startswith("C07/rereg/"))
+    out["typed_secondary_operand_ground"] = {d: sum(1 for i in ids if i.startswith(f"C07/mixu-typed/{d}/")) for d in TYPED_DTYPES}
     out["scaled_dimensionless"] = dict(
         templates_rerun_with_dimensionless_units=sum(1 for i in ids if i.startswith("C07/dimless")),
         of_which_with_concrete_dyadic_scales=sum(1 for i in ids if i.startswith("C07/dimless-dyadic/")),
